@@ -93,6 +93,7 @@ def _check(idx):
     for p in ob.pc:
         s.add(p)
     if ob.kind == 'cover':
+        s.set('timeout', min(_TIMEOUT_MS, 2500))
         r = s.check()
         return idx, str(r), time.time() - t0, None
     s.add(z3.Not(ob.goal))
